@@ -29,8 +29,10 @@ type Obligation struct {
 	Backend       string
 	TimeS         float64
 	Model         string
+	Top           *ssa.Function // function under verification when the obligation was generated
 	Candidate     string // model of the quantifier-free relaxation (unvalidated)
 	noQuantAxioms bool
+	replay        *Replay
 	Output        string
 	Script        []string
 }
@@ -128,7 +130,7 @@ func (e *Engine) addObl(fn *ssa.Function, kind, text string, pos token.Pos, reac
 			name = fmt.Sprintf("%s@%d", base, k)
 		}
 	}
-	o := &Obligation{Name: name, Kind: kind, Fn: fname, Prefix: len(e.sc.lines), Reach: reach, Formula: formula, Text: text}
+	o := &Obligation{Name: name, Kind: kind, Fn: fname, Prefix: len(e.sc.lines), Reach: reach, Formula: formula, Text: text, Top: e.topFn}
 	if pos.IsValid() {
 		p := e.w.Fset.Position(pos)
 		o.Where = fmt.Sprintf("%s:%d", strings.TrimPrefix(p.Filename, e.w.RepoDir+"/"), p.Line)
@@ -395,7 +397,7 @@ func (e *Engine) rangeFacts(reach string, v Val, t types.Type) {
 		}
 	case *types.Slice:
 		e.sc.assert(implies(reach, and("(>= (s_len "+v.T+") 0)", "(>= (s_off "+v.T+") 0)", "(>= (s_cap "+v.T+") (s_len "+v.T+"))", "(>= (s_ref "+v.T+") 0)",
-			implies("(= (s_ref "+v.T+") 0)", "(= (s_len "+v.T+") 0)"))))
+			implies("(= (s_ref "+v.T+") 0)", "(and (= (s_len "+v.T+") 0) (= (s_cap "+v.T+") 0))"))))
 	case *types.Pointer, *types.Map, *types.Chan, *types.Signature:
 		e.sc.assert(implies(reach, "(>= "+v.T+" 0)"))
 	}
